@@ -620,3 +620,89 @@ theorem parseSid_decimal (n : Nat) (h : n < 4294967296) : parseSid (pctDecode (d
   simp [h]
 
 end Rfsm.Http
+
+namespace Rfsm.Http
+
+/-! ### what rocket hands to the route is a map: keys pairwise distinct -/
+
+theorem keysDistinct_iff (l : List (Bytes × Bytes)) :
+    keysDistinct l = true ↔ (l.map (·.1)).Nodup := by
+  induction l with
+  | nil => simp [keysDistinct]
+  | cons p l ih =>
+    simp only [keysDistinct, Bool.and_eq_true, Bool.not_eq_eq_eq_not, Bool.not_true, List.map_cons,
+      List.nodup_cons, ih]
+    constructor
+    · rintro ⟨h1, h2⟩
+      refine ⟨?_, h2⟩
+      intro hm
+      simp only [List.mem_map] at hm
+      obtain ⟨q, hq, hqe⟩ := hm
+      have := List.any_eq_false.mp h1 q hq
+      simp [hqe] at this
+    · rintro ⟨h1, h2⟩
+      refine ⟨?_, h2⟩
+      apply List.any_eq_false.mpr
+      intro q hq hqe
+      apply h1
+      simp only [List.mem_map]
+      exact ⟨q, hq, by simpa using hqe⟩
+
+theorem insertKV_keys (acc : List (Bytes × Bytes)) (k v : Bytes) :
+    (insertKV acc k v).map (·.1) =
+      if acc.any (fun p => p.1 == k) then acc.map (·.1) else acc.map (·.1) ++ [k] := by
+  unfold insertKV
+  split
+  · rw [List.map_map]
+    apply List.map_congr_left
+    intro p _
+    simp only [Function.comp]
+    split
+    · rename_i h; exact (by simpa using h : p.1 = k).symm
+    · rfl
+  · simp
+
+theorem insertKV_distinct (acc : List (Bytes × Bytes)) (k v : Bytes) (h : keysDistinct acc = true) :
+    keysDistinct (insertKV acc k v) = true := by
+  rw [keysDistinct_iff] at h ⊢
+  rw [insertKV_keys]
+  split
+  · exact h
+  · rename_i hk
+    rw [List.nodup_append]
+    refine ⟨h, by simp, ?_⟩
+    intro a ha b hb
+    simp only [List.mem_singleton] at hb
+    subst hb
+    intro hab
+    subst hab
+    apply hk
+    simp only [List.mem_map] at ha
+    obtain ⟨q, hq, hqe⟩ := ha
+    exact List.any_eq_true.mpr ⟨q, hq, by simp [hqe]⟩
+
+theorem foldl_finalize_distinct (es : List Entry) (acc : List (Bytes × Bytes))
+    (h : keysDistinct acc = true) : keysDistinct (es.foldl finalizeStep acc) = true := by
+  induction es generalizing acc with
+  | nil => exact h
+  | cons e es ih =>
+    rw [List.foldl_cons]
+    apply ih
+    unfold finalizeStep
+    split
+    · exact insertKV_distinct acc _ _ h
+    · exact h
+
+/-- whatever the request, the form the route iterates over has pairwise distinct keys -/
+theorem rocketMap_distinct (fields form : List (Bytes × Bytes)) (h : rocketMap fields = some form) :
+    keysDistinct form = true := by
+  unfold rocketMap mapFinalize at h
+  split at h
+  · exact absurd h (by simp)
+  · split at h
+    · exact absurd h (by simp)
+    · simp only [Option.some.injEq] at h
+      rw [← h]
+      exact foldl_finalize_distinct _ [] rfl
+
+end Rfsm.Http
